@@ -23,6 +23,7 @@ import time
 import z3
 
 from engine import llsym
+from engine.ordabs import OSolver
 from engine.llsym_run import KEYT, KEY_ERROR, FP, build_conv, conv_setup
 
 T_TYPE, B_TYPE = 0x7770000, 0x7780000
@@ -317,6 +318,7 @@ MEMORY_ERROR = 0xE0080
 
 def setup(module, fam, L, I, timeout, is_set=False, fail_at=None):
     it, mem, obj, out, err = conv_setup(module, z3.IntVal(0), z3.BoolVal(True), timeout)
+    it.solver = OSolver()       # branch feasibility: order formulas over the symbolic words
     g = mem.alloc(64, 'globals2')
     for i, (name, val) in enumerate((('PyExc_KeyError', KEY_ERROR), ('PyExc_ValueError', 0xE0040), ('PyExc_IndexError', 0xE0050),
                                      ('max_internal_size_str', S_INTERNAL), ('max_leaf_size_str', S_LEAF),
@@ -597,7 +599,7 @@ def _run_tree_set(ob, scratch, fail_at=None):
         return res
     stored_ranks = sorted(set(shp.leaf_keys(tpl)))
     rank = {keys[r].get_id(): r for r in range(m)}
-    s = z3.Solver()
+    s = OSolver()
     s.add(*pre)
     q, ts, cex, detail, reached, fired_paths = 0, 0.0, None, None, 0, 0
     for o in outs:
@@ -784,7 +786,7 @@ def run_tree_range(ob, scratch):
     except (llsym.Unsupported, llsym.Budget) as e:
         res.update(verdict='inconclusive', detail='%s: %s' % (type(e).__name__, e), paths=0, solver_queries=0, solver_s=0, wall_s=time.time() - t0)
         return res
-    s = z3.Solver()
+    s = OSolver()
     s.add(*pre)
     q, ts, cex, detail, reached = 0, 0.0, None, None, 0
     # "qualifies": key >= / > bound (low end), key <= / < bound (high end)
